@@ -19,6 +19,7 @@ SEEDED_ID = re.compile(r"ids9|random")
 _OBS = None
 _REPO = None
 _CERT = ("z3",)
+_BUDGET = 300
 
 
 def contract_module(prop):
@@ -32,16 +33,26 @@ def _work(i):
     t = time.time()
     for kx in smt.STATS:
         smt.STATS[kx] = 0
+    import signal
+
+    def _alarm(signum, frame):
+        raise TimeoutError("obligation exceeded its time budget of %d s" % _BUDGET)
+    signal.signal(signal.SIGALRM, _alarm)
+    signal.alarm(_BUDGET)
     try:
         backends = _CERT(ob) if callable(_CERT) else _CERT
         res = symkernel.run_symbolic(ob.fn, _REPO, eager=ob.eager, cert_backends=backends,
                                      solver_model=solvers.sym_model(ob.solver),
                                      max_paths=ob.max_paths or symkernel.MAX_PATHS, light=ob.light)
+    except TimeoutError as e:
+        res = {"status": "unknown", "paths": [{"trail": [], "goals": [], "unsupported": str(e)}], "n_certs": 0, "wall_s": round(time.time() - t, 3),
+               "notes": [str(e)], "inputs": []}
     except Exception as e:          # noqa: BLE001 -- an exception escaping the harness is a checker error, not a verdict
         res = {"status": "checker-error", "paths": [], "n_certs": 0, "wall_s": round(time.time() - t, 3),
                "notes": ["%s: %s" % (type(e).__name__, e), traceback.format_exc()[-1500:]], "inputs": []}
+    finally:
+        signal.alarm(0)
     res["id"] = ob.id
-    from gsv.engine import smt
     res["solver_stats"] = dict(smt.STATS)
     return res
 
@@ -157,6 +168,11 @@ def check(prop, tier="quick", seed=0, repo="/repo", jobs=None, only=None, verbos
             return ("z3", "cvc5")
         h = int(hashlib.sha256(("%s|%d" % (ob.id, seed)).encode()).hexdigest(), 16)
         return ("z3", "cvc5") if h % 4 == 0 else ("z3",)
+    numeric_only = [o for o in obs if o.numeric_only]
+    obs_all = obs
+    obs = [o for o in obs if not o.numeric_only]
+    global _BUDGET
+    _BUDGET = int(os.environ.get("GSV_OBLIGATION_BUDGET_S", "300" if tier == "quick" else "2400"))
     _OBS, _REPO, _CERT = obs, r, cert_backends
     jobs = jobs or min(16, os.cpu_count() or 1, max(1, len(obs)))
     order = list(range(len(obs)))
@@ -283,6 +299,27 @@ def check(prop, tier="quick", seed=0, repo="/repo", jobs=None, only=None, verbos
             else:
                 print("UNDECIDED obligation=%s reason=%s stand-in=bounded(%d points, no failure)" % (ob.id, why[:200], info["points"]))
 
+    # --- floating-point corner obligations: numeric interpretation only (bounded; reported separately)
+    bounded_records = []
+    if numeric_only:
+        res_n = run_numeric(prop, tier, seed, repo, [o.id for o in numeric_only], max(o.num_points for o in numeric_only), "crosscheck")
+        if "error" in res_n:
+            checker_errors.append((None, ["numeric-only obligations failed to run: " + res_n["error"]]))
+        else:
+            for o in numeric_only:
+                info = res_n["results"].get(o.id, {"points": 0, "failed_points": []})
+                bounded_records.append({"id": o.id, "points": info.get("points", 0), "failed": len(info.get("failed_points", []))})
+                if info.get("failed_points"):
+                    labels = sorted({g["label"] for g in info["failed_points"][0]["goals"]})
+                    path = _write_replay(replay_dir, prop, o, tier, seed, info["failed_points"][0], {"numeric_only": True}, True)
+                    kf = finding_for(known, prop, o.id, labels)
+                    if kf:
+                        known_seen.append((o.id, kf))
+                    else:
+                        violations.append((o, labels, path, True))
+                elif not info.get("points"):
+                    checker_errors.append((o, ["numeric-only obligation explored no point"]))
+
     # --- report
     for oid, kf in known_seen:
         print("KNOWN-FINDING: property=%s obligation=%s %s" % (prop, oid, kf.get("what", "")))
@@ -329,6 +366,7 @@ def check(prop, tier="quick", seed=0, repo="/repo", jobs=None, only=None, verbos
             "numeric_crosscheck": None if cross is None or "error" in cross else {"obligations": len(cross["results"]), "points_each": cross.get("points"),
                                                                                  "failures": sum(1 for v in cross["results"].values() if v["failed_points"])},
             "undecided_with_bounded_standin": bounded_standin,
+            "bounded_floating_point_checks": bounded_records,
             "contract_drift": [o.id for o, _, _ in drift],
             "known_findings_seen": [oid for oid, _ in known_seen],
             "samples": samples,
